@@ -62,3 +62,15 @@ Proof.
   by rewrite !mxE rmorphM Hinv mulrC.
 Qed.
 End Quad.
+
+(* the purification handed to the inner initializer is a unit vector: its squared norm tr(Psi Psi^dagger) is one *)
+Section PurificationNorm.
+Variable (F : fieldType) (conj : {rmorphism F -> F}).
+Variables (d k : nat).
+Variable psi : 'I_k -> 'cV[F]_d.
+Variable s p : 'I_k -> F.
+Theorem purification_normalised :
+  (forall i, s i * conj (s i) = p i) -> (forall i, adj conj (psi i) *m psi i = 1%:M) -> \sum_i p i = 1 ->
+  \tr (Psi psi s *m adj conj (Psi psi s)) = 1.
+Proof. move=> Hs Hn Hp. rewrite (@partial_trace_purification F conj d k psi s p Hs). exact: rho_ens_trace_one. Qed.
+End PurificationNorm.
